@@ -17,6 +17,10 @@ def ordered(x):
 
 
 def run(ctx):
+    if getattr(ctx, "replay", None):
+        from checks import execreplay
+        if execreplay.replay(ctx, "C13"):
+            return
     ctx.assumptions += [
         "delivery order of groups is nondeterministic (map iteration over labels, goroutines, unbuffered channel): payloads are compared with the model as a set keyed by (path, label); the ordering clause is evaluated on the arrival order actually observed",
         "the multi-level merge statement is evaluated on every case (lib/defermerge.py) and proved for one object level over the Spec",
